@@ -116,10 +116,12 @@ func ParseHeaderDirective(header http.Header) *HeaderDirectives {
 				hd.CacheControl.value = typeutils.Some(cacheControl{noCache: true})
 			}
 		case "Expires":
-			if t, err := time.Parse(http.TimeFormat, value); err == nil {
+			// All three HTTP date formats are valid; an invalid date (such as "0") means "already expired".
+			if t, err := http.ParseTime(value); err == nil {
 				hd.Expires.value = typeutils.Some(t)
 			} else {
 				slog.Debug("Error parsing Expires header", "error", err, "value", value)
+				hd.Expires.value = typeutils.Some(time.Time{})
 			}
 		}
 	}
